@@ -58,9 +58,13 @@ VerifyClauses(s, ev) ==
          \cup (IF ev.end = "fail" /\ ev.exc = "ManifestSymlinkLoop" /\ ~LoopHit(s, V)
                THEN {"C16.SpuriousLoop"} ELSE {})
          \cup (IF ev.end = "ok" /\ LoopHit(s, V) THEN {"C16.LoopAccepted"} ELSE {})
+         \cup (IF ev.end = "ok" /\ ev.ret /\ (acc = {} \/ ~AllParsable(s, acc) \/ ChainBroken(s, sub, acc))
+               THEN {"C02.BrokenChainUsed"} ELSE {})
        ELSE \* keep-going mode (C07)
          IF ~struct \/ BeneathNonDir(s, FE) THEN
             (IF ev.end = "ok" /\ ev.ret /\ ~may THEN {"C07.FalseAccept"} ELSE {})
+            \cup (IF ev.end = "ok" /\ (acc = {} \/ ~AllParsable(s, acc) \/ ChainBroken(s, sub, acc))
+                  THEN {"C02.BrokenChainUsed"} ELSE {})
          ELSE
             (IF ev.end # "ok" THEN {"C07.Raised"} ELSE {})
             \cup (IF \E p \in OffendingMust(s, sub, ev.last) : p \notin rep
